@@ -220,6 +220,44 @@ def s3_counter(ctx, rid, fx, cls, counter, handshake, what=""):
     return len(asg)
 
 
+def _width_text(call):
+    """the part of a Signal(...) declaration that fixes its width: first positional argument / bits_sign= / max= (min=), or the
+    argument of Signal.like; None for declarations without one (1 bit)"""
+    if not isinstance(call, ast.Call):
+        return "?"
+    f = norm(call.func)
+    kw = {k.arg: norm(k.value) for k in call.keywords if k.arg}
+    if f == "Signal.like":
+        return "like:" + (norm(call.args[0]) if call.args else "?")
+    if call.args:
+        return "bits:" + norm(call.args[0])
+    if "bits_sign" in kw:
+        return "bits:" + kw["bits_sign"]
+    if "max" in kw or "min" in kw:
+        return f"range:{kw.get('min', '0')}..{kw.get('max', '2')}"
+    return "bits:1"
+
+
+def copy_widths(ctx, rid, fx, cls, cdef):
+    """A register that is loaded with the plain value of another signal declared in the same class holds a copy of it: both are
+    declared with the same width expression (or one `like` the other).  A narrower copy truncates silently in Migen."""
+    n = 0
+    for a in fx.find(domain="sync"):
+        if a.kind not in ("eq", "nextvalue") or a.t == a.v or a.t not in fx.decl or a.v not in fx.decl:
+            continue
+        dt, dv = fx.decl[a.t], fx.decl[a.v]
+        if not (dt[0].startswith("Signal") and dv[0].startswith("Signal")):
+            continue
+        wt, wv = _width_text(dt[1]), _width_text(dv[1])
+        ok = wt == wv or wt == "like:" + a.v or wv == "like:" + a.t or wt in (f"bits:len({a.v})", f"bits:{a.v}.nbits") or \
+            q.holds_copy_of(fx, cdef, a.t, a.v)[0]
+        n += 1
+        ctx.ob(rid, fx.rel, cls, f"{a.t} holds a copy of {a.v}: same width", ok,
+               "" if ok else f"{a.t} = {norm(dt[1])} is loaded with {a.v} = {norm(dv[1])}: the copy is declared with another width and is "
+                             f"truncated (or zero-extended) silently", a.line)
+    return n
+
+
 def s3_word_flags(ctx, rid, fx, cls):
     """first / last of the wide word being assembled by an up-converting element (next-value formula of the 1-bit registers,
     q.value_formula): restarted from the incoming beat when the previous word leaves in the same cycle, cleared when it leaves
